@@ -565,12 +565,22 @@ func isSyncReceiver(in ssa.Instruction, addr ssa.Value) bool {
 var protectKinds = map[string]bool{"atomic": true, "immutable": true, "guarded_by": true, "owned_by": true,
 	"published_by": true, "syncvalue": true, "unprotected": true}
 
-// coverageScan: every field of a struct that carries protection clauses for property id has one
+// coverageScan: every field of a struct declared "field T.* covered" for property id has a protection clause
 // (a field added later without a discipline is reported).
 func (ld *Loaded) coverageScans(id string) []*FuncResult {
 	type tk struct{ pkg, typ string }
 	seen := map[tk]map[string]bool{}
 	var order []tk
+	wanted := map[tk]bool{}
+	for _, fd := range ld.cs.Fields {
+		if fd.Kind == "covered" && fd.Field == "*" {
+			for _, p := range fd.Props {
+				if p == id {
+					wanted[tk{fd.Pkg, fd.Type}] = true
+				}
+			}
+		}
+	}
 	for _, fd := range ld.cs.Fields {
 		has := false
 		for _, p := range fd.Props {
@@ -582,6 +592,9 @@ func (ld *Loaded) coverageScans(id string) []*FuncResult {
 			continue
 		}
 		k := tk{fd.Pkg, fd.Type}
+		if !wanted[k] {
+			continue
+		}
 		if seen[k] == nil {
 			seen[k] = map[string]bool{}
 			order = append(order, k)
